@@ -51,7 +51,8 @@ func (c *Caser) Identifierize(s string) string {
 
 	rIdent := []rune(ident)
 	if len(rIdent) > 0 {
-		if !unicode.IsLetter(rIdent[0]) || isNotCaseSensitiveLetter(rIdent[0]) {
+		// Only an upper case first letter makes a Go identifier exported.
+		if !unicode.IsUpper(rIdent[0]) {
 			ident = "A" + ident
 		}
 	}
@@ -61,10 +62,6 @@ func (c *Caser) Identifierize(s string) string {
 	}
 
 	return ident
-}
-
-func isNotCaseSensitiveLetter(r rune) bool {
-	return !unicode.IsUpper(r) && !unicode.IsLower(r)
 }
 
 func (c *Caser) Capitalize(s string) string {
@@ -115,7 +112,7 @@ func splitIdentifierByCaseAndSeparators(s string) []string {
 		case unicode.IsUpper(r):
 			nextState = stateUpper
 
-		case unicode.IsNumber(r):
+		case unicode.IsDigit(r): // Only decimal digits are allowed in Go identifiers.
 			nextState = stateNumber
 
 		case !unicode.IsLetter(r): // Non-letter characters.
